@@ -19,7 +19,8 @@ Inductive tok :=
 | TX.                (* malformed chunk header *)
 
 Inductive h1state := HStart | HReadHeaders | HReadBody | HWait | HDone | HPipe.
-Inductive reader := RLen (n : N) | RChunked | REof.
+(* RChunkedEnd: the chunked reader after its terminating chunk (h11 keeps waiting for trailer lines) *)
+Inductive reader := RLen (n : N) | RChunked | RChunkedEnd | REof.
 Record h1conn := mkConn { c_state : h1state; c_sid : option N; c_req : option head; c_resp : option head;
                           c_reqdone : bool; c_respdone : bool; c_reader : reader; c_buf : list tok }.
 Definition set_c_state (v : h1state) (s : h1conn) : h1conn := {| c_state := v; c_sid := c_sid s; c_req := c_req s; c_resp := c_resp s; c_reqdone := c_reqdone s; c_respdone := c_respdone s; c_reader := c_reader s; c_buf := c_buf s |}.
@@ -155,7 +156,14 @@ Fixpoint h1_read (fuel : nat) (server : bool) (c : h1conn) : kres :=
               else kcons (recv_data server c (firstn (N.to_nat n) d))
                          (rd (set_c_reader (RLen 0) (set_c_buf (TD (skipn (N.to_nat n) d) :: rest) c)))
           | RChunked, TD d :: rest => kcons (recv_data server c d) (rd (set_c_buf rest c))
-          | RChunked, TE :: rest => eom_with rd server (set_c_buf rest c)
+          | RChunked, TE :: rest => eom_with rd server (set_c_reader RChunkedEnd (set_c_buf rest c))
+          | RChunkedEnd, b =>
+              (* reached only when the state stays read_body after the end of message (response complete before the
+                 request): the next complete block of lines is taken for trailers and does not parse as header lines *)
+              match scan_junk b with
+              | Some rest => (set_c_buf rest c, [KClose false; recv_err server c])
+              | None => (c, [])
+              end
           | RChunked, TX :: rest => (set_c_buf rest c, [KClose false; recv_err server c])
           | REof, TD d0 :: rest0 =>
               let '(d, rest) := take_data (c_buf c) in kcons (recv_data server c d) (rd (set_c_buf rest c))
